@@ -362,3 +362,45 @@ def compare_emit_numpy(cases):
                 bad.append({"stage": "NumPy round trip through the real emitter and parser (theorem's domain)", "input": [doc, es], "impl": got,
                             "model": [doc, es]})
     return n, bad
+
+
+# ---- defaults are made a suffix (Model/ForceDefaults.v) -----------------------------------------------------------------------------
+def gen_force(rng):
+    ps = []
+    for n in rng.sample(NAMES, rng.randint(1, 6)):
+        t = rng.choice(["int", "float", "str", "bool", "List[str]", "Optional[int]", None])
+        ps.append([n, t, rng.random() < 0.35])
+    return ps
+
+
+def compare_force(cases):
+    from cdd.shared.ast_utils import NoneStr
+    from cdd.shared.docstring_parsers import parse_docstring
+    bad, n = [], 0
+    ZERO = {"int": 0, "float": 0.0, "str": "", "bool": False}
+    for ps, m in zip(cases, call_many("force_future", [[[t, own] for _n, t, own in ps] for ps in cases])):
+        lines = []
+        for name, t, own in ps:
+            doc = "the value" + (". Defaults to 7" if own else "")
+            lines.append(("  %s (%s): %s" % (name, t, doc)) if t else ("  %s: %s" % (name, doc)))
+        text = "Header.\n\nArgs:\n" + "\n".join(lines)
+        try:
+            with contextlib.redirect_stderr(io.StringIO()):
+                ir = parse_docstring(text, emit_default_doc=False)
+            got = []
+            for name, t, own in ps:
+                p = ir["params"].get(name) or {}
+                if "default" not in p:
+                    got.append(None)
+                elif p["default"] == NoneStr:
+                    got.append("nonestr")
+                elif own:
+                    got.append("own")
+                else:
+                    got.append(["zero", t] if t in ZERO and p["default"] == ZERO[t] and type(p["default"]) is type(ZERO[t]) else ["other", repr(p["default"])])
+        except BaseException as e:  # noqa
+            got = "raises " + type(e).__name__
+        n += 1
+        if got != m:
+            bad.append({"stage": "Google docstring: defaults forced onto the parameters after the first default", "input": text, "impl": got, "model": m})
+    return n, bad
